@@ -145,7 +145,7 @@ class SpecMap:
                 v = path.fresh("ext")
                 cflag = V.truthy(z3.substitute(m["body"], (m["var"], v)))
                 sflag = V.truthy(z3.substitute(self.body, (self.var, v), *psub))
-                facts = [V.vl_contains(xs, v)]
+                facts = [V.vcontains(xs, v)]
                 ent = path.ctx.__dict__.get("elem_shapes", {}).get(xs.get_id())
                 if ent is not None:
                     facts.append(ent(v))
@@ -170,7 +170,7 @@ class SpecMap:
             sbody = z3.substitute(self.body, (self.var, v), *psub)
             ckeep = z3.BoolVal(True) if m.get("keep") is None else z3.substitute(m["keep"], (m["var"], v))
             skeep = z3.BoolVal(True) if self.keep is None else z3.substitute(self.keep, (self.var, v), *psub)
-            facts = [V.vl_contains(xs, v)]
+            facts = [V.vcontains(xs, v)]
             ent = path.ctx.__dict__.get("elem_shapes", {}).get(xs.get_id())
             if ent is not None:
                 facts.append(ent(v))
